@@ -1,7 +1,10 @@
 package checks
 
 import (
+	"encoding/json"
 	"fmt"
+	"os"
+	"path/filepath"
 	"sort"
 
 	clipper "github.com/bolom009/go-clipper2"
@@ -291,6 +294,92 @@ var barsMenu = func() []Path {
 	return m
 }()
 
+// spBitmap: a k x k field of touching unit cells (10 x 10 each, every cell its own square path) with every
+// assignment of {absent, subject[, clip]} to the cells, optionally on top of the 2 x 2 field of blocks twice that
+// size (same choices): every join is a horizontal or vertical edge-to-edge or corner-to-corner contact, so rings,
+// holes and islands only come into existence through join and split bookkeeping. stride must be coprime to base.
+func spBitmap(k int, blocks bool, withClip bool, stride uint64, level int) *BoolSpace {
+	base := uint64(2)
+	if withClip {
+		base = 3
+	}
+	var menu []Path
+	sq := func(x, y, s int64) Path {
+		return Path{{X: x, Y: y}, {X: x + s, Y: y}, {X: x + s, Y: y + s}, {X: x, Y: y + s}}
+	}
+	if blocks {
+		bs := int64(k) * 10 / 2
+		for y := int64(0); y < 2; y++ {
+			for x := int64(0); x < 2; x++ {
+				menu = append(menu, sq(x*bs, y*bs, bs))
+			}
+		}
+	}
+	for y := 0; y < k; y++ {
+		for x := 0; x < k; x++ {
+			menu = append(menu, sq(int64(x)*10, int64(y)*10, 10))
+		}
+	}
+	total := enum.Pow(base, len(menu))
+	name := fmt.Sprintf("N/bitmap %dx%d cells", k, k)
+	if blocks {
+		name += " over 2x2 blocks"
+	}
+	name += fmt.Sprintf(", %d choices per piece", base)
+	if stride > 1 {
+		name += fmt.Sprintf(", every %d-th assignment", stride)
+	}
+	return &BoolSpace{Name: name, Level: level, Size: (total + stride - 1) / stride, E: enum.Eunit,
+		Gen: func(idx uint64, g *genBuf) (Paths, Paths) {
+			g.reset()
+			idx *= stride
+			for i := range menu {
+				switch idx % base {
+				case 1:
+					g.s = append(g.s, menu[i])
+				case 2:
+					g.c = append(g.c, menu[i])
+				}
+				idx /= base
+			}
+			if len(g.s) == 0 {
+				g.s = Paths{}
+			}
+			if len(g.c) == 0 {
+				return g.s, nil
+			}
+			return g.s, g.c
+		}}
+}
+
+// spHardInputs: fixed inputs kept from earlier findings that lie beyond the enumerated scopes
+// (known/hard_inputs.json: name, subject, clip).
+func spHardInputs() *BoolSpace {
+	type hi struct {
+		Name          string
+		Subject, Clip [][][2]int64
+	}
+	var list []hi
+	if b, err := os.ReadFile(filepath.Join(os.Getenv("VERIF_DIR"), "known", "hard_inputs.json")); err == nil {
+		_ = json.Unmarshal(b, &list)
+	}
+	conv := func(ps [][][2]int64) Paths {
+		out := make(Paths, len(ps))
+		for i, p := range ps {
+			for _, q := range p {
+				out[i] = append(out[i], Pt{X: q[0], Y: q[1]})
+			}
+		}
+		return out
+	}
+	var S, C []Paths
+	for _, h := range list {
+		S, C = append(S, conv(h.Subject)), append(C, conv(h.Clip))
+	}
+	return &BoolSpace{Name: "regress/inputs of known/hard_inputs.json", Level: 7, Size: uint64(len(list)), E: enum.Eunit,
+		Gen: func(idx uint64, g *genBuf) (Paths, Paths) { return S[idx], C[idx] }}
+}
+
 func spBars(items int, withClip bool, level int) *BoolSpace {
 	base := uint64(2)
 	if withClip {
@@ -330,14 +419,16 @@ func init() {
 			if tier == "quick" {
 				out = append(out, c04Scope(spSingle(enum.Eax, 3, 4, 2), all), c04Scope(spSingle(enum.Eax, 3, 5, 3), all), c04Scope(spSingle(enum.Esh, 3, 5, 3), all))
 				out = append(out, c04Scope(spPair("B2", enum.Eax, 3, 3, 3, 4), all), c04Scope(spTwo(enum.Esh, 3, 3, 4), all))
-				out = append(out, c04Scope(spRects(enum.Eax, 4, 5), all), c04Scope(spNest(enum.Eax, 4, false, 5), nestOps), c04Scope(spThree(enum.Eax, 13, 5), all), c04Scope(spBars(15, false, 6), nestOps), c04Scope(spTwoLevel(11, 7, 5), all), c04Scope(spThree(enum.Ean, 17, 5), all))
+				out = append(out, c04Scope(spRects(enum.Eax, 4, 5), all), c04Scope(spNest(enum.Eax, 4, false, 5), nestOps), c04Scope(spThree(enum.Eax, 13, 5), all), c04Scope(spBars(15, false, 6), nestOps), c04Scope(spTwoLevel(11, 7, 5), all), c04Scope(spThree(enum.Ean, 17, 5), all),
+					c04Scope(spBitmap(4, false, false, 1, 6), nestOps), c04Scope(spBitmap(3, false, true, 1, 6), all), c04Scope(spBitmap(4, true, true, 30011, 7), all), c04Scope(spHardInputs(), all))
 				return out
 			}
 			for _, e := range []enum.Embed{enum.Eax, enum.Esh, enum.Ean} {
 				out = append(out, c04Scope(spSingle(e, 3, 4, 2), all), c04Scope(spSingle(e, 3, 5, 3), all), c04Scope(spSingle(e, 3, 6, 4), all))
 				out = append(out, c04Scope(spPair("B2", e, 3, 3, 3, 4), all), c04Scope(spTwo(e, 3, 3, 4), all))
 			}
-			out = append(out, c04Scope(spRects(enum.Eax, 4, 5), all), c04Scope(spNest(enum.Eax, 4, true, 5), nestOps), c04Scope(spNest(enum.Eax, 5, false, 6), nestOps), c04Scope(spShapes(enum.Eax, 5, 6), nestOps), c04Scope(spBars(17, false, 6), nestOps), c04Scope(spBars(13, true, 6), nestOps))
+			out = append(out, c04Scope(spRects(enum.Eax, 4, 5), all), c04Scope(spNest(enum.Eax, 4, true, 5), nestOps), c04Scope(spNest(enum.Eax, 5, false, 6), nestOps), c04Scope(spShapes(enum.Eax, 5, 6), nestOps), c04Scope(spBars(17, false, 6), nestOps), c04Scope(spBars(13, true, 6), nestOps),
+				c04Scope(spBitmap(4, false, false, 1, 6), nestOps), c04Scope(spBitmap(3, false, true, 1, 6), all), c04Scope(spBitmap(4, true, false, 1, 7), nestOps), c04Scope(spBitmap(4, true, true, 1009, 7), all), c04Scope(spBitmap(5, false, false, 7, 7), nestOps), c04Scope(spHardInputs(), all))
 			return out
 		},
 	})
